@@ -105,6 +105,11 @@ def main():
             continue
         for i, run in enumerate(r["runs"]):
             chk.count("digests_compared")
+            chk.count("digests_compared_" + ("baseline" if c["vname"] == "baseline" else "hashseed" if "hashseed" in c["vname"] else "twice" if "twice" in c["vname"] else
+                                              "chunksize" if c["vname"].startswith("chunksize") else "pool"))
+            if (c["variant"].get("n_pool", 0) >= 2 or c["variant"].get("user_pool")) and run["user_points"] < run["evals"]:
+                # the user-boundary counter lives in the main process: fewer points seen there than nessai counted means the workers really evaluated the rest
+                chk.count("pool_variants_with_evaluations_outside_the_main_process")
             chk.count("monitored_iterations", run["iterations"])
             if run["digest"] != b["digest"] or run["evals"] != b["evals"] or run["logZ"] != b["logZ"]:
                 chk.violation(f"C14:{c['sampler']}:{c['vname']}:digest-differs-from-baseline",
@@ -118,7 +123,8 @@ def main():
     chk.finish("each configuration is run in separate processes: baseline, another process with a different PYTHONHASHSEED, twice in one process, n_pool 1-4 (with "
                "content-keyed delays in the workers), a user-supplied fork pool, chunk sizes 1/7/huge, parallel prior, vectorisation disabled; SHA-256 over nested samples, "
                "posterior weights, repr(logZ), insertion indices plus the evaluation counter must equal the baseline's. Non-trivial = non-baseline variant that completed; "
-               "distinct by (configuration, seed, variant).", require_observed=["digests_compared"])
+               "distinct by (configuration, seed, variant).", require_observed=["digests_compared", "digests_compared_hashseed", "digests_compared_twice", "digests_compared_chunksize", "digests_compared_pool",
+                                 "pool_variants_with_evaluations_outside_the_main_process"])
 
 
 if __name__ == "__main__":
